@@ -261,3 +261,21 @@ CHECKS["C09"] = dict(
     floors=dict(any={"TestC09Chan.endings": 300, "TestC09Close.closes": 120}),
     assumptions=["'promptly' is decided on the virtual clock: the call must have returned when the bubble is idle 2 virtual minutes later"],
 )
+
+CHECKS["C10"] = dict(
+    level="exploration",
+    rule=("C10Restart: real manager over the REAL graphsync transport over a graphsync double. Case index enumerates role (4) x {same process, manager+transport reopened on the "
+          "same datastore} x previous request state {live, failed, requester-cancelled with 1-2 queued messages} x progress (0 / some blocks); PRNG: later voucher present, local or "
+          "remote restart, validator accepts/rejects. Oracles: identity and progress fields unchanged and no new datastore key; the re-issued request is marked restart with the "
+          "original transfer id, direction, ORIGINAL voucher, base CID, selector; a responder re-validates and asks the initiator (restart-existing-channel request); the skip count "
+          "in the do-not-send-first-blocks extension equals the recorded received index; the cancel of a live previous request returned before the new request was issued (global "
+          "call stamps); queued messages are attached to the next incoming request exactly once; a rejected incoming restart fails the channel. C10Cleanup: a channel persisted in "
+          "Cancelling/Failing/Completing only finishes cleanup on restart (no transport/network traffic). distinct = parameter/outcome tuple."),
+    parts=[
+        dict(test="TestC10Restart", quick=384, thorough=19200, per_shard=48),
+        dict(test="TestC10Cleanup", quick=12, thorough=120, per_shard=6),
+    ],
+    floors=dict(any={"TestC10Restart.restarts": 250, "TestC10Restart.skip_checks": 60, "TestC10Restart.cancel_then_request": 20, "TestC10Restart.queued_message_checks": 8,
+                     "TestC10Cleanup.cleanup_restarts": 12}),
+    assumptions=["restarts are issued at quiescent points (the skip-count clause is stated for recorded progress)"],
+)
